@@ -202,6 +202,7 @@ type env struct {
 	caFile    string
 	behs      map[string]beh
 	tryTO     time.Duration
+	ctxTO     time.Duration // deadline of the context handed to Sign (0 = one minute, as cmd/gensign)
 }
 
 func (e *env) newSigner(eps []int, retries uint) (*crypki.Signer, error) {
@@ -322,7 +323,11 @@ func (e *env) signCall(class string, signer *crypki.Signer, eps []int, behs map[
 	var certs []ssh.PublicKey
 	var comms []string
 	var serr error
-	ctx, cancel := context.WithTimeout(context.Background(), 60*time.Second)
+	to := 60 * time.Second
+	if e.ctxTO > 0 {
+		to = e.ctxTO
+	}
+	ctx, cancel := context.WithTimeout(context.Background(), to)
 	panicked, msg := core.Guard(func() { certs, comms, serr = signer.Sign(ctx, req) })
 	cancel()
 	if panicked {
@@ -606,6 +611,12 @@ func run(c *core.Ctx) {
 	}
 	e.runSign("deadline", []int{1, 2}, map[int]beh{1: {kind: "slow"}, 2: genReply(r, e.keys, 2)}, 1)
 	e.runSign("deadline-all", []int{3}, map[int]beh{3: {kind: "slow"}}, 1)
+	// the caller's deadline is tight: an unresponsive first endpoint uses up its per-try timeout (1 s), 0.6 s are
+	// left for the healthy second one, which answers at once - it must still be contacted and its answer returned
+	e.ctxTO = e.tryTO + 600*time.Millisecond
+	e.runSign("deadline-tight-slow-then-ok", []int{1, 2}, map[int]beh{1: {kind: "slow"}, 2: genReply(r, e.keys, 2)}, 1)
+	e.runSign("deadline-tight-slow-then-ok", []int{4, 5, 2}, map[int]beh{4: {kind: "slow"}, 5: down, 2: genReply(r, e.keys, 1)}, 1)
+	e.ctxTO = 0
 	e.runSign("down-then-ok", []int{5, 4}, map[int]beh{5: down, 4: genReply(r, e.keys, 1)}, 1)
 	e.runSign("all-down", []int{5, 5}, map[int]beh{5: down}, 1)
 	// ---- (ii') a context that is already done when Sign is entered (cancelled, or past its deadline): no endpoint can
